@@ -11,12 +11,13 @@ one() {
   if ! (cd $T/repo && patch -p1 -s --dry-run -i /verif/$d/patch.diff >/dev/null 2>&1); then echo "$n: SKIP (does not apply)"; rm -rf $T; return; fi
   (cd $T/repo && patch -p1 -s -i /verif/$d/patch.diff)
   mkdir -p $T/v; cp /verif/KNOWN_FINDINGS.txt $T/v/
-  /verif/bin/otrcheck -property all -repo $T/repo -verif $T/v > $T/out.txt 2>&1
+  ${BIN:-/verif/bin/otrcheck} -property all -repo $T/repo -verif $T/v > $T/out.txt 2>&1
   grep -E '^  \[' $T/out.txt | sed -e 's/ — .*//' | sed -e "s#$T/repo/##g" > /verif/$d/detected_by.txt
   awk '/^  \[violation\]/{match($0,/rule=[^ ]+ key=[^ ]+/); v[n++]=substr($0,RSTART,RLENGTH)} /^C[0-9]+ tier/{for(i=0;i<n;i++)print $1, v[i]; n=0}' $T/out.txt > /verif/$d/byprop.txt
   grep -E '^C[0-9]+ tier' $T/out.txt | grep -v 'violations=0' | awk '{print $1}' | tr '\n' ' ' > /verif/$d/fires.txt
+  grep -q '^C[0-9]* tier' $T/out.txt || { echo "CRASH" > /verif/$d/fires.txt; tail -5 $T/out.txt > /verif/$d/crash.txt; }
   echo "$n: $(cat /verif/$d/fires.txt)"
   rm -rf $T
 }
 export -f one
-printf '%s\n' $DIRS | xargs -P 8 -I{} bash -c 'one {}' | sort
+printf '%s\n' $DIRS | xargs -P ${PAR:-8} -I{} bash -c 'one {}' | sort
